@@ -238,6 +238,8 @@ def plan(tier, seed):
 
 
 def params(tier):
+    if tier == "c20":
+        return dict(maxlen=3, uri_maxlen=1, reps=1, k=1)
     if tier == "thorough":
         return dict(maxlen=4, uri_maxlen=3, reps=3, k=3)
     return dict(maxlen=4, uri_maxlen=2, reps=2, k=2)
